@@ -34,7 +34,7 @@ ASSUMPTIONS = [
     'parseable as a number',
 ]
 ANCHORS = ['Table.delimited_self', 'Table._extract_data_from_tsv', 'Table.from_tsv', '_convert', 'parse_biom_table']
-REQUIRED = ['export_to_tsv', 'export_str', 'export_direct_io',
+REQUIRED = ['exported_again_after_change', 'export_to_tsv', 'export_str', 'export_direct_io',
             'export_cli', 'import_from_tsv_lines', 'import_from_tsv_handle',
             'import_load_table', 'import_load_table_gz',
             'import_parse_table_lines', 'import_cli_json', 'import_cli_hdf5',
@@ -253,6 +253,60 @@ def run_case(ctx, index):
                                 'exported without any; text=%r; case=%r' %
                                 (g.obs_md, text[:400], desc))
             ctx.count('import_' + nm)
+        # ------------------------------- export again after a change
+        # a table that has been exported and is then changed in place
+        # exports what it holds now
+        if exporter != 'cli' and spec.D.size:
+            change = r.choice(['negate-observation', 'negate-sample',
+                               'rename-samples', 'rename-observations',
+                               'presence-absence'])
+            now = spec.copy()
+            if change.startswith('negate'):
+                t.transform(lambda v, i, m: -v, axis=change.split('-')[1],
+                            inplace=True)
+                now.D = np.where(spec.D != 0, -spec.D, 0.0)
+            elif change == 'rename-samples':
+                now.samp_ids = ['r_' + i for i in spec.samp_ids]
+                t.update_ids(dict(zip(spec.samp_ids, now.samp_ids)),
+                             axis='sample', inplace=True)
+            elif change == 'rename-observations':
+                now.obs_ids = [i + '.v2' for i in spec.obs_ids]
+                t.update_ids(dict(zip(spec.obs_ids, now.obs_ids)),
+                             axis='observation', inplace=True)
+            else:
+                t.pa(inplace=True)
+                now.D = (spec.D != 0).astype(float)
+            if exporter == 'to_tsv':
+                text2 = t.to_tsv(**kw)
+            elif exporter == 'str':
+                text2 = str(t)
+            else:
+                buf = io.StringIO()
+                t.to_tsv(direct_io=buf, **kw)
+                text2 = buf.getvalue()
+            d2 = dict(desc, changed_in_place=change)
+            try:
+                o, s_, D2, _, _ = tsvspec.decode(text2, with_md_export)
+            except Exception as e:
+                raise Violation('C03/export-undecodable', '%s: %s; text=%r; '
+                                'case=%r' % (type(e).__name__, e, text2[:300],
+                                             d2))
+            if o != now.obs_ids or s_ != now.samp_ids or \
+                    not snap.bits_equal(D2, now.D):
+                raise Violation('C03/export-after-change', 'after %s the '
+                                'export still reads %r / %r / %r, the table '
+                                'holds %r / %r / %r; case=%r' %
+                                (change, o, s_, D2.tolist(), now.obs_ids,
+                                 now.samp_ids, now.D.tolist(), d2))
+            t3 = biom.Table.from_tsv(text2.split('\n')[:-1] if
+                                     text2.endswith('\n') else
+                                     text2.split('\n'), None, None, proc)
+            d = snap.diff(snap.snap(t3), snap.snap_spec(now),
+                          fields=('obs_ids', 'samp_ids', 'D'))
+            if d:
+                raise Violation('C03/roundtrip-differs/after-change', '%s; '
+                                'case=%r' % ('; '.join(d), d2))
+            ctx.count('exported_again_after_change')
     finally:
         for p in files:
             if os.path.exists(p):
